@@ -52,6 +52,11 @@ def programs(tier, seed):
         seenp.update(M.pr(p) for p in chunk)
         if chunk:
             out.append('<view %s/>' % ' '.join('p%d="{{ %s }}"' % (i, esc(M.pr(p))) for i, p in enumerate(chunk)))
+    # literal receivers: a number literal before `.` needs its parentheses on re-print (`1.a` is not `(1).a`)
+    one, half, seven = M.L('int', '1', 1), M.L('float', '1.5', 1.5), M.L('int', '7', 7)
+    recv = [('mem', one, 'a'), ('idx', one, x_), ('mem', half, 'a'), ('call', ('mem', seven, 'toFixed'), []), ('mem', ('un', '-', y_), 'a'), ('mem', M.L('str', "'s'", 's'), 'length'),
+            ('bin', '+', ('mem', one, 'a'), y_), ('mem', ('arr', [x_]), 'length'), ('mem', ('obj', [('kv', 'k', x_)]), 'k')]
+    out.append('<view %s/>' % ' '.join('p%d="{{ %s }}"' % (i, esc(M.pr(p))) for i, p in enumerate(recv)))
     # mixed text: every expression form as the first / a later part of an attribute value and of a text node
     a_, b_, c_, y_ = ('id', 'a'), ('id', 'b'), ('id', 'c'), ('id', 'y')
     lit = M.L('str', "'s'", 's')
